@@ -68,11 +68,9 @@ func (p *c38Pair) both(line string) {
 // a consequence). The witnesses of those deviations are the directed cases.
 //   - AppendObject is not implemented by the S3 client backend        → appends are skipped
 //   - an Expires value that is not an RFC 1123 HTTP date is dropped or rewritten → such values are removed
-//   - CopyObject forwards neither the tagging directive nor a replacement tag set → copies keep the source tags
 //   - a copy of an object onto itself is judged by the HTTP layer's S3 rule       → self copies are skipped
 //   - TransitionObjectStorageClass is emulated by a self CopyObject (new version under versioning,
 //     website redirect location lost, not implemented for a version id)             → transitions are skipped
-//   - CompleteMultipartUpload forwards neither If-Match nor If-None-Match          → completions are unconditional
 func c38Avoid(line string) (string, bool) {
 	t := strings.Fields(line)
 	if len(t) < 2 {
@@ -93,18 +91,6 @@ func c38Avoid(line string) (string, bool) {
 				}
 			}
 			t[i] = "md=" + pairsS(m)
-		}
-		if t[1] == "cp" && strings.HasPrefix(tok, "tags=") {
-			t[i] = "tags=~" // CopyObject forwards neither the tagging directive nor the tag set
-		}
-		if t[1] == "cp" && tok == "tdir=R" {
-			t[i] = "tdir=C"
-		}
-		if t[1] == "cmpl" && strings.HasPrefix(tok, "inm=") {
-			t[i] = "inm=0" // CompleteMultipartUpload forwards neither If-None-Match nor If-Match
-		}
-		if t[1] == "cmpl" && strings.HasPrefix(tok, "im=") {
-			t[i] = "im=~"
 		}
 	}
 	return strings.Join(t, " "), true
@@ -129,7 +115,7 @@ func c38Directed() []c38Dir {
 			"op mkb b0", "op put b0 k0 " + h("x") + " ct=~ md=" + h("!ex") + ":" + h("not-a-date") + " tags=~ cls=~ inm=0 im=~", "op head b0 k0 vid=~",
 			"op put b0 k1 " + h("y") + " ct=~ md=" + h("!ex") + ":" + h("Wednesday, 21-Oct-15 07:28:00 GMT") + " tags=~ cls=~ inm=0 im=~", "op head b0 k1 vid=~",
 		),
-		mk("copy-replace-tags", // CopyObject with a replacement tag set; a self copy that only replaces tags
+		mk("", // CopyObject with a replacement tag set (not forwarded until /repo 12cfa65; now a clean directed history)
 			"op mkb b0", "op put b0 k0 " + h("src") + " ct=~ md=~ tags=~ cls=~ inm=0 im=~", "op ptag b0 k0 vid=~ tags=" + h("old") + ":" + h("1"),
 			"op cp b0 k0 b0 k1 svid=~ mdir=C tdir=R ct=~ md=~ tags=" + h("new") + ":" + h("2") + " cls=~", "op gtag b0 k1 vid=~",
 		),
@@ -140,13 +126,15 @@ func c38Directed() []c38Dir {
 		mk("transition-versioned", // TransitionObjectStorageClass in a versioning-enabled bucket
 			"op mkb b0", "op ver b0 E", "op put b0 k0 " + h("v0") + " ct=~ md=~ tags=~ cls=~ inm=0 im=~", "op trans b0 k0 GLACIER vid=~", "op lsv b0",
 		),
-		mk("transition-website-redirect", // … of an object with a website redirect location
+		mk("", // (website redirect lost until /repo e40dcaf; now a clean directed history)
+			// // … of an object with a website redirect location
 			"op mkb b0", "op put b0 k0 " + h("x") + " ct=~ md=" + h("!wr") + ":" + h("/other") + " tags=~ cls=~ inm=0 im=~", "op trans b0 k0 GLACIER vid=~", "op head b0 k0 vid=~",
 		),
 		mk("transition-by-version", // … addressed by version id
 			"op mkb b0", "op put b0 k0 " + h("x") + " ct=~ md=~ tags=~ cls=~ inm=0 im=~", "op trans b0 k0 GLACIER vid=null", "op head b0 k0 vid=~",
 		),
-		mk("conditional-complete", // conditional CompleteMultipartUpload
+		mk("", // (conditions not forwarded until /repo f8f46ec; now a clean directed history)
+			// // conditional CompleteMultipartUpload
 			"op mkb b0", "op put b0 k0 " + h("exists") + " ct=~ md=~ tags=~ cls=~ inm=0 im=~", "op mpu b0 k0 ct=~ md=~ tags=~ cls=~", "op upp b0 k0 0 1 " + h("part"),
 			"op cmpl b0 k0 0 parts=~ inm=1 im=~", "op get b0 k0 vid=~",
 		),
